@@ -75,7 +75,8 @@ def run_chan_harness(ctx, env=None, suffix="", timeout=1500, race=False, report=
                      stream=False, corpus=True):
     """Run TestVerifChan on the tree under test (VERIF_REPO aware through lib.verif).
     env: VERIF_SEED/VERIF_TIER/VERIF_CASES/VERIF_CHAN_TYPES/VERIF_CRASH/VERIF_CUT/
-    VERIF_MAXSTEPS/VERIF_FIRST_CASE/VERIF_CHAN_SCRIPT/VERIF_CHAN_FREE_REV.
+    VERIF_MAXSTEPS/VERIF_FIRST_CASE/VERIF_CHAN_SCRIPT/VERIF_CHAN_FREE_REV/VERIF_CRASHIN/
+    VERIF_CHAN_BACKEND (bbolt|sqlite|mix)/VERIF_CHAN_SQLITE_PCT.
     corpus=True (default): the explicit schedules of every /verif/corpus/chan/*.json are
     run FIRST in the same test process (VERIF_CHAN_CORPUS); their rows come first, have
     "script": true, "corpus": "<file>#<i>", "expect_last" and case >= CORPUS_BASE.
@@ -734,7 +735,8 @@ def _tables_ok(d, who, own_kinds):
       current / a future height;
     * forwarding packages: exactly one per received revocation (heights 1..remote_h);
     * unsignedAckedUpdates = the peer's updates our local commitment includes and our
-      remote TAIL commitment does not: log indexes [rtail.theirs, ltail.theirs);
+      remote TAIL commitment does not: exactly the log indexes [rtail.theirs, ltail.theirs)
+      (as a set: the list is in update-log order);
     * remoteUnsignedLocalUpdates = our non-add updates the remote tail commitment
       includes and our local commitment does not: indexes in [ltail.ours, rtail.ours)."""
     x = d.get("diskx")
@@ -752,9 +754,11 @@ def _tables_ok(d, who, own_kinds):
     heights = [f[0] for f in x["fwdpkgs"]]
     if heights != list(range(1, rh + 1)):
         fails.append("%s: forwarding packages at heights %s, expected 1..%d" % (who, heights, rh))
+    # (both lists are stored in update-LOG order, which after a restart is not index order:
+    # restoreStateLogs puts the commitment's adds first; compared as sets, no duplicates)
     ua = x["unsigned_acked"]
     want = list(range(d["rtail"]["theirs"], d["ltail"]["theirs"]))
-    if ua != want:
+    if not isinstance(ua, list) or sorted(ua) != want:
         fails.append("%s: persisted unsignedAckedUpdates %s, expected the peer updates %s "
                      "(acked by local height %d, not in the remote tail)" % (who, ua, want, d["ltail"]["h"]))
     ru = x["remote_unsigned"]
@@ -764,7 +768,7 @@ def _tables_ok(d, who, own_kinds):
     elif own_kinds is not None:
         want = [i for i in range(lo, hi) if own_kinds.get(i) not in (None, "add")]
         unknown = [i for i in range(lo, hi) if i not in own_kinds]
-        if not unknown and ru != want:
+        if not unknown and sorted(ru) != want:
             fails.append("%s: persisted remoteUnsignedLocalUpdates %s, expected %s (own non-add "
                          "updates in [%d, %d))" % (who, ru, want, lo, hi))
     return fails
@@ -792,6 +796,11 @@ def disk_tables(row):
                     n += 1
                     fails += ["step %d %s: %s" % (i, op[0], f)
                               for f in _tables_ok(ex["reloaded"][p], p, kb[p])]
+        for p in PARTIES:
+            d = ((ex.get("sync1") or {}).get("reloaded") or {}).get(p)
+            if d:
+                n += 1
+                fails += ["step %d crashin (interrupted restart): %s" % (i, f) for f in _tables_ok(d, p, kb[p])]
         if len(fails) > 20:
             break
     disk_tables.reloads = n
@@ -799,6 +808,12 @@ def disk_tables(row):
 
 
 disk_tables.reloads = 0
+
+
+def _kstr(k):
+    """crash point of a crashin op: k >= 0 = the (k+1)-th transaction is refused up front;
+    k < 0 = the (-k)-th transaction is executed and ROLLED BACK by the backend."""
+    return "%d" % k if k >= 0 else "%d+rollback" % (-k - 1)
 
 
 def _minus(d, keys):
@@ -882,14 +897,16 @@ def crashin_atomic(row):
             rb, ra = ex["reload_before"], ex["reloaded"][p]
             m, refused, cres = ex.get("committed"), ex.get("refused"), ex.get("call_res")
             key = "%s k=%s committed=%s %s" % (call if call != "deliver" else "deliver_" + str(ex.get("kind")),
-                                              op[3], m, "completed" if not refused else "cut short")
+                                              _kstr(op[3]), m, "completed" if not refused else "cut short")
             stats[key] = stats.get(key, 0) + 1
             if refused and cres == "ok":
                 fails.append("step %d %s: a transaction was refused but the call returned ok" % (i, op))
             untouched = ra == rb
             complete = None
             if not untouched:
-                complete = _complete_call(call, rb, ra, prev[p], p)
+                # (the only write of a resync is the signature ProcessChanSyncMsg makes when it
+                # owes a commitment on top of a retransmitted revocation)
+                complete = _complete_call("sign" if call == "sync" else call, rb, ra, prev[p], p)
             verdict = "before" if untouched else ("after" if not complete else "torn")
             stats["-> " + verdict] = stats.get("-> " + verdict, 0) + 1
             if verdict == "torn":
@@ -898,7 +915,7 @@ def crashin_atomic(row):
                              % (i, op, m, refused, "; ".join(complete[:4])))
             elif m == 0 and verdict != "before":
                 fails.append("step %d %s: no transaction committed but the disk changed" % (i, op))
-            elif not refused and cres == "ok" and verdict != "after" and call != "deliver":
+            elif not refused and cres == "ok" and verdict != "after" and call in ("sign", "revoke"):
                 fails.append("step %d %s: the call completed (ok) but the disk shows no effect" % (i, op))
             elif not refused and cres == "ok" and call == "deliver" and ex.get("kind") == "rev" \
                     and verdict != "after":
@@ -1048,7 +1065,7 @@ def histograms(rows):
                 ntx[k] = ntx.get(k, 0) + 1
             if st["op"][0] == "crashin" and "committed" in ex:
                 k = "%s%s k=%s committed=%s%s [%s]" % (
-                    st["op"][2], "_" + ex["kind"] if ex.get("kind") else "", st["op"][3],
+                    st["op"][2], "_" + ex["kind"] if ex.get("kind") else "", _kstr(st["op"][3]),
                     ex["committed"], " (cut short)" if ex.get("refused") else "",
                     r.get("backend", "bbolt"))
                 crashin[k] = crashin.get(k, 0) + 1
